@@ -1135,31 +1135,47 @@ def k_collect_used_types(R, F, S):
 
 
 def k_fragment_is_recursive(R, F, S):
-    """fragments::fragment_is_recursive == "the fragment's own selection tree contains a spread of itself" (decides Box on spreads)"""
+    """fragments::fragment_is_recursive(f) decides whether every spread of f is boxed.  It is executed for every fragment
+    of every fragment graph within the bound (F fragments, S top-level selections each: `__typename`, spread, or a field
+    with one child that is a leaf / `__typename` / spread), and the results are assembled into one query - the property:
+    *is there a cycle of spreads that passes through an object field and on which no spread is boxed?*  (such a cycle is a
+    Rust type of infinite size).  Pure top-level spread cycles (`fragment A { ...A }`) are not "recursion through object
+    fields" and are left to C17."""
     f = R.fn('fragment_is_recursive')
     out = []
+    per_target = {}
+    g = None
+    strict_dev = 0
     for target in range(F):
         holder = {}
 
         def setup(st, B, target=target):
-            q, g = fragment_graph(B, st, F, S, f'fr{F}{S}{target}_', nest=True)
-            holder['g'] = g
+            q, g_ = fragment_graph(B, st, F, S, f'fr{F}{S}_', nest=True)     # same variables for every target
+            holder['g'] = g_
             R.vm.push_call(st, f, [B.newtype('ResolvedFragmentId', bv(target, 32)), B.cell(q)], None, None)
         outs, _ = R.explore(f'fragment_is_recursive(F={F},S={S})', setup)
-        g = holder.get('g')
         if not outs:
-            continue
+            return out
+        g = holder['g']
         own = []
         for s_ in range(S):
             own.append(z3.And(g['sel_kind'][target][s_] == g['i_spread'], g['sel_tgt'][target][s_] == target))
             own.append(z3.And(g['sel_kind'][target][s_] == g['i_field'], g['ch_kind'][target][s_] == g['i_spread'], g['ch_tgt'][target][s_] == target))
-        want = z3.Or(*own)
+        own_tree = z3.Or(*own)
+        false_paths = []
         for o in outs:
             if o.kind == 'return':
-                m = R.prove('fragment_is_recursive', o, o.value == want, f'fragment F{target}')
-                if m is not None:
-                    out.append(dict(kernel='fragment_is_recursive', prop='C12', what='recursion flag differs from "own tree spreads itself"', target=f'F{target}',
-                                    got=str(m.eval(o.value, model_completion=True)), fragments=fragments_of_model(m, g)))
+                v = simp(o.value)
+                R.obligations += 1
+                if z3.is_true(v) or z3.is_false(v):
+                    R.discharged += 1
+                    if z3.is_false(v):
+                        false_paths.append(z3.And(*o.state.pc))
+                    if R.vm.solver.check(*(o.state.pc + [z3.BoolVal(z3.is_true(v)) != own_tree])) == z3.sat:
+                        strict_dev += 1
+                else:
+                    false_paths.append(z3.And(*(o.state.pc + [z3.Not(v)])))
+                    R.discharged += 1
             elif o.kind in ('loop', 'limit'):
                 m = R.vm.model(o.state)
                 out.append(dict(kernel='fragment_is_recursive', prop='C17', what=o.msg, fragments=fragments_of_model(m, g) if m else None))
@@ -1167,7 +1183,56 @@ def k_fragment_is_recursive(R, F, S):
                 m = R.prove('fragment_is_recursive', o, z3.BoolVal(False), 'no panic')
                 if m is not None:
                     out.append(dict(kernel='fragment_is_recursive', prop='C17', what=f'{o.kind}: {o.msg}', fragments=fragments_of_model(m, g)))
-    R.sample(dict(kernel='fragment_is_recursive', fragments=F, selections_per_fragment=S))
+        per_target[target] = z3.Or(*false_paths) if false_paths else z3.BoolVal(False)       # "spreads of `target` are not boxed"
+    # the property as one query
+
+    def top_edge(a, b):
+        return z3.Or(*[z3.And(g['sel_kind'][a][s_] == g['i_spread'], g['sel_tgt'][a][s_] == b) for s_ in range(S)])
+
+    def field_edge(a, b):
+        return z3.Or(*[z3.And(g['sel_kind'][a][s_] == g['i_field'], g['ch_kind'][a][s_] == g['i_spread'], g['ch_tgt'][a][s_] == b) for s_ in range(S)])
+    D = [[z3.And(z3.Or(top_edge(a, b), field_edge(a, b)), per_target[b]) for b in range(F)] for a in range(F)]
+    DF = [[z3.And(field_edge(a, b), per_target[b]) for b in range(F)] for a in range(F)]
+    Rm = D
+    for _ in range(F):
+        Rm = [[z3.Or(Rm[a][b], *[z3.And(Rm[a][c], D[c][b]) for c in range(F)]) for b in range(F)] for a in range(F)]
+    dom = []
+    for a in range(F):
+        dom.append(z3.Or(*[g['on_kind'][a] == g['tkinds'].index(x) for x in ('Object', 'Interface', 'Union')]))
+        for s_ in range(S):
+            dom += [z3.Or(g['sel_kind'][a][s_] == g['i_field'], g['sel_kind'][a][s_] == g['i_spread'], g['sel_kind'][a][s_] == g['i_typename']),
+                    z3.Or(g['ch_kind'][a][s_] == g['i_field'], g['ch_kind'][a][s_] == g['i_spread'], g['ch_kind'][a][s_] == g['i_typename']),
+                    z3.ULT(g['sel_tgt'][a][s_], F), z3.ULT(g['ch_tgt'][a][s_], F)]
+    cyc = z3.Or(*[z3.And(DF[a][b], z3.BoolVal(True) if a == b else Rm[b][a]) for a in range(F) for b in range(F)])
+    R.obligations += 1
+    sol = z3.Solver()
+    sol.set('timeout', 120000)
+    sol.add(*dom)
+    sol.add(cyc)
+    t0 = __import__('time').time()
+    r = sol.check()
+    R.vm.solver_time += __import__('time').time() - t0
+    R.vm.queries += 1
+    if r == z3.unsat:
+        R.discharged += 1
+        if len(R.cross) < 40:
+            R.cross.append(sol.to_smt2())
+    elif r == z3.sat:
+        # prefer a witness whose fragments are all on the object type (spreads across abstract / object types take other
+        # code paths in calculate_selection and make the replay less direct)
+        sol.push()
+        sol.add(*[g['on_kind'][a] == g['tkinds'].index('Object') for a in range(F)])
+        if sol.check() != z3.sat:
+            sol.pop()
+            sol.check()
+        m = sol.model()
+        # the fragment to spread from the operation: one that lies on the cycle
+        on_cycle = [a for a in range(F) if z3.is_true(m.eval(z3.Or(*[z3.And(DF[a][b], z3.BoolVal(True) if a == b else Rm[b][a]) for b in range(F)]), model_completion=True))]
+        out.append(dict(kernel='fragment_is_recursive', prop='C12', what='a cycle of fragment spreads through an object field on which no spread is boxed',
+                        target=f'F{on_cycle[0] if on_cycle else 0}', got='False', fragments=fragments_of_model(m, g)))
+    else:
+        R.inconclusive.append('fragment recursion: solver unknown on the cycle query')
+    R.sample(dict(kernel='fragment_is_recursive', fragments=F, selections_per_fragment=S, deviations_from_own_tree_rule=strict_dev))
     return out
 
 
